@@ -53,6 +53,15 @@ def run(ctx):
         if len(mins) == 1:
             cell = elem_of(mins[0][2][0])
             okq = cell == wantq
+        elif r[0] == "call" and r[1].endswith("::fold") and len(r[2]) == 3 and r[2][2][0] == "closure":
+            # `let first = it.next().unwrap(); it.fold(first, |best, c| best.min(c))`: the minimum over every item of the stream
+            from ..terms import apply_closure
+            st, seed, clo = r[2]
+            a_, b_ = ("acc",), ("item",)
+            body = apply_closure(clo, (a_, b_))
+            if seed == elem_of(st) and body == mk("min", a_, b_):
+                cell = elem_of(st)
+                okq = cell == wantq
     ctx.check(okq, "R02-cell-agreement", qp.key, qp, "query_point takes the minimum over table[%s]" % fmt(wantq[2]),
               "query_point reads %s — not the cells add_n updates, or not their minimum" % (fmt(cell) if cell else fmt(r)))
     ctx.check(erase_obj(want) == erase_obj(wantq[2]), "R02-cell-agreement", CMS + ":writer==reader", add_n, "writer and reader index terms are identical up to the name of the element parameter", "writer/reader index mismatch")
@@ -80,7 +89,8 @@ def run(ctx):
         if p.exit_kind != "return":
             continue
         npaths += 1
-        iters = sum(1 for e in p.events if e["kind"] == "branch" and e["bb"] in add_n.natural_loop(heads[0]) if okl and e.get("cond") and e["cond"][0] == "call" and e["cond"][1] == "discriminant" and e["value"] == 1)
+        from .common import iterations_on_path
+        iters = iterations_on_path(add_n, heads[0], p) if okl else 0
         stores = [e for e in p.events if e["kind"] == "write" and self_field(e) == "table" and e["how"] == "store"]
         if iters != len(stores):
             probs.append("a path runs %d iterations but stores %d cells" % (iters, len(stores)))
